@@ -505,3 +505,15 @@ contract(
     writes_fresh=CUR_FRESH + EV_FRESH, raises=["IntegrityError"],
     exc_ensures={"IntegrityError": ["False"]},
 )
+
+
+# -- the constructor: establishes the commit discipline (base case of lazy_inv) ------------------------------------------------------
+contract(
+    S_ + ".__init__",
+    params={"self": "SqliteStorage", "testing": "bool", "filepath": "Optional[str]", "enable_lazy_commit": "bool"},
+    requires=[],
+    ensures=["lazy_inv(self)", "pending(self) == 0 and self.num_uncommitted_statements == 0",
+             "self.enable_lazy_commit == enable_lazy_commit and self.testing == testing", "fresh(self.conn)"],
+    modifies=["self.conn", "self.last_commit", "self.num_uncommitted_statements", "self.enable_lazy_commit", "self.testing", "alloc", "Event.id"],
+    writes_fresh=["*"], raises=["IntegrityError"],
+)
